@@ -211,7 +211,9 @@ def run_case(case, mon):
             if d != base:
                 mon.fail("workload-depends-on-settings", f"generated workload changed when only scheduler/executor settings changed: {extra}")
         if n > 0:
-            other = dict(case["wparams"], random_seed=case["wparams"]["random_seed"] + 1 + rng.randint(0, 1000))
+            # another seed: a neighbour, or one that differs only beyond 32 / 64 bits (every bit of a seed counts)
+            other = dict(case["wparams"], random_seed=case["wparams"]["random_seed"] +
+                         rng.choice([1 + rng.randint(0, 1000), 1 + rng.randint(0, 1000), 2 ** 32, 2 ** 64, 3 * 2 ** 32]))
             d2, n2 = workload_digest(other, {}, case["ticks"])
             mon.count("seed_pairs_checked")
             multi_choice = (case["wparams"]["num_operators"] > 1 and case["wparams"]["query_prob"] < 1) or len([x for x in (case["wparams"]["interactive_prob"], case["wparams"]["query_prob"], case["wparams"]["batch_prob"]) if x > 0]) > 1
